@@ -109,8 +109,34 @@ type hostileResult struct {
 	sum      uint32
 }
 
+// c07Dest selects the destination handed to WriteTo: 0 = a bare io.Writer, 1 = a destination
+// with the optional Grow method that records what it is asked to reserve, 2 = a real
+// *bytes.Buffer (reservations made on it by library code are seen by the allocation monitor,
+// bytes.ErrTooLarge panics by the panic guard).
+var c07Dest int
+
+// growTrap is an io.Writer with the optional Grow method of bytes.Buffer / strings.Builder.
+type growTrap struct {
+	h       ref.XXH32State
+	maxGrow int
+	negGrow bool
+	grows   int
+}
+
+func (t *growTrap) Write(p []byte) (int, error) { t.h.Write(p); return len(p), nil }
+func (t *growTrap) Grow(n int) {
+	t.grows++
+	if n < 0 {
+		t.negGrow = true
+	}
+	if n > t.maxGrow {
+		t.maxGrow = n
+	}
+}
+
 func readHostile(c *Ctx, src io.Reader, pos func() int64, conc int, mode int, blockMax int, what string, gcFirst bool) hostileResult {
 	var res hostileResult
+	var trap *growTrap
 	if gcFirst {
 		runtime.GC()
 	}
@@ -127,9 +153,21 @@ func readHostile(c *Ctx, src io.Reader, pos func() int64, conc int, mode int, bl
 		var h ref.XXH32State
 		h.Reset()
 		if mode == rdWriteTo {
-			n, err := r.WriteTo(writerFunc(func(p []byte) (int, error) { h.Write(p); return len(p), nil }))
-			res.out, res.err = n, err
-			res.sum = h.Sum32()
+			switch c07Dest % 3 {
+			case 1:
+				trap = &growTrap{}
+				trap.h.Reset()
+				n, err := r.WriteTo(trap)
+				res.out, res.err, res.sum = n, err, trap.h.Sum32()
+			case 2:
+				var buf bytes.Buffer
+				n, err := r.WriteTo(&buf)
+				h.Write(buf.Bytes())
+				res.out, res.err, res.sum = n, err, h.Sum32()
+			default:
+				n, err := r.WriteTo(writerFunc(func(p []byte) (int, error) { h.Write(p); return len(p), nil }))
+				res.out, res.err, res.sum = n, err, h.Sum32()
+			}
 			return
 		}
 		buf := make([]byte, 70000)
@@ -158,6 +196,16 @@ func readHostile(c *Ctx, src io.Reader, pos func() int64, conc int, mode int, bl
 		res.sum = h.Sum32()
 	})
 	res.consumed = pos()
+	if trap != nil {
+		c.Count("destinations_with_grow", 1)
+		c.Count("grow_calls_observed", int64(trap.grows))
+		// what the library may ask the destination to reserve is bounded like its own allocations: the
+		// block size the input declares, not a length field the input merely announces
+		if trap.negGrow || trap.maxGrow > 2*blockMax+256<<10 {
+			c.Violation("destination-reservation/"+what, fmt.Sprintf("WriteTo asked the destination to Grow by %d bytes (negative: %v) while the input declares blocks of at most %d bytes: a reservation driven by an unverified header field (bytes.Buffer would allocate or panic)", trap.maxGrow, trap.negGrow, blockMax),
+				map[string]interface{}{"max_grow": trap.maxGrow, "conc": conc, "consumed": res.consumed})
+		}
+	}
 	if okPeak && before > 0 {
 		res.peakKB = rssKB("VmHWM") - before
 	}
@@ -221,10 +269,11 @@ func c07Case(c *Ctx, i int64) {
 		if bm > c07CaseMaxBM {
 			c07CaseMaxBM = bm
 		}
-		for _, conc := range concs {
+		for ci, conc := range concs {
 			for _, mode := range modes {
 				src := &gen.Source{Data: data, G: g, Budget: 3000 + 3*len(data)}
 				c.Tag(what)
+				c07Dest = int(c.curCase) + ci + 1
 				res := readHostile(c, src, func() int64 { return int64(src.Pos) }, conc, mode, bm, what, false)
 				c.Count("hostile_reads", 1)
 				c07Judge(c, res, conc, bm, what, det)
@@ -320,8 +369,9 @@ func c07HostileFrame(g *prng.Rng, k int) []byte {
 		hdr(flg, bd, 0, false)
 		b = binary.LittleEndian.AppendUint32(b, 0xFFFFFFFF)
 		b = append(b, g.Bytes(100)...)
-	case 2: // content size 2^64-1, then a tiny valid block
-		hdr(flg&^0x14, bd, ^uint64(0), true)
+	case 2: // a hostile content size (2^64-1, 2^63-1, 2^62, 2^40, 2^32, 2^31, 2^30, ...), then a tiny valid block
+		sizes := []uint64{^uint64(0), 1 << 62, 1 << 30, 1<<63 - 1, 3 << 28, 1 << 40, 1 << 63, 1 << 32, 1<<31 - 1, 1<<33 + 7}
+		hdr(flg&^0x14, bd, sizes[(k/11)%len(sizes)], true)
 		b = binary.LittleEndian.AppendUint32(b, 0x80000003)
 		b = append(b, 'a', 'b', 'c', 0, 0, 0, 0)
 	case 3: // block just above the declared maximum
